@@ -19,17 +19,17 @@ import (
 )
 
 type World struct {
-	prog     *ssa.Program
-	pkgs     []*ssa.Package
-	mu       sync.Mutex
-	follow   []string
-	maxSteps int
-	solver   string
-	timeout  int
-	tier     string
-	maxCex   int
-	noMerge  bool
-	trace    bool
+	prog          *ssa.Program
+	pkgs          []*ssa.Package
+	mu            sync.Mutex
+	follow        []string
+	maxSteps      int
+	solver        string
+	timeout       int
+	tier          string
+	maxCex        int
+	noMerge       bool
+	trace         bool
 	branchTimeout int
 }
 
